@@ -169,6 +169,7 @@ CHARS = [("'a'", 97), ("'0'", 48), ("'\\n'", 10), ("'\\0'", 0), ("'\\\\'", 92), 
          # every simple escape sequence of ISO C 6.4.4.4, more octal / hexadecimal shapes, punctuation
          ("'\\a'", 7), ("'\\b'", 8), ("'\\f'", 12), ("'\\r'", 13), ("'\\t'", 9), ("'\\v'", 11), ("'\\\"'", 34), ("'\\?'", 63),
          ("'\\7'", 7), ("'\\12'", 10), ("'\\177'", 127), ("'\\x7'", 7), ("'\\x7f'", 127), ("'\\x0A'", 10),
+         ("'\t'", 9), ("'\v'", 11), ("'\f'", 12),            # literal TAB / VT / FF inside the quotes (C11 5.2.1p3)
          ("'\"'", 34), ("'?'", 63), ("' '", 32), ("'~'", 126), ("'A'", 65), ("'x'", 120), ("'7'", 55)]
 NEG = ("un", "-", ("lit", "1"))
 
